@@ -302,3 +302,88 @@ def guard_str(guard: Tuple[Tuple[Any, bool], ...]) -> str:
     if not guard:
         return "always"
     return " & ".join((("" if pol else "not ") + fmt(c)) for c, pol in guard)
+
+
+COMMUTATIVE = {"add", "mul"}
+
+
+def term_equal(a: Any, b: Any) -> Optional[bool]:
+    """Structural equality of γ-free terms, sympy leaves compared with expr_equal,
+    keyword-bound call arguments compared by name, add/mul commutative."""
+    if isinstance(a, T) and isinstance(b, T):
+        if a.op != b.op:
+            return False
+        if a.op == "call":
+            (na, ba), (nb, bb) = a.args, b.args
+            if na != nb:
+                return False
+            da, db = dict(ba), dict(bb)
+            if set(da) != set(db):
+                return False
+            res: Optional[bool] = True
+            for k in da:
+                r = term_equal(da[k], db[k])
+                if r is False:
+                    return False
+                if r is None:
+                    res = None
+            return res
+        if len(a.args) != len(b.args):
+            return False
+        r1 = _seq_equal(a.args, b.args)
+        if r1 is True:
+            return True
+        if a.op in COMMUTATIVE and len(a.args) == 2:
+            r2 = _seq_equal(a.args, tuple(reversed(b.args)))
+            if r2 is True:
+                return True
+            if r1 is None or r2 is None:
+                return None
+        return r1
+    if isinstance(a, tuple) and isinstance(b, tuple):
+        if len(a) != len(b):
+            return False
+        return _seq_equal(a, b)
+    if isinstance(a, (T, tuple)) or isinstance(b, (T, tuple)):
+        return False
+    if isinstance(a, sp.Basic) or isinstance(b, sp.Basic) or (isinstance(a, (int, float)) and isinstance(b, (int, float)) and not isinstance(a, bool) and not isinstance(b, bool)):
+        if isinstance(a, (str, type(None), bool)) or isinstance(b, (str, type(None), bool)):
+            return a is b or (type(a) == type(b) and a == b)
+        return expr_equal(a, b)
+    return type(a) == type(b) and a == b
+
+
+def _seq_equal(xs: Any, ys: Any) -> Optional[bool]:
+    res: Optional[bool] = True
+    for x, y in zip(xs, ys):
+        r = term_equal(x, y)
+        if r is False:
+            return False
+        if r is None:
+            res = None
+    return res
+
+
+def first_diff(a: Any, b: Any, path: str = "") -> str:
+    """Human-readable location of the first difference between two terms."""
+    if isinstance(a, T) and isinstance(b, T):
+        if a.op != b.op:
+            return f"{path or 'root'}: {a.op} vs {b.op}"
+        if a.op == "call":
+            (na, ba), (nb, bb) = a.args, b.args
+            if na != nb:
+                return f"{path or 'root'}: call {na} vs {nb}"
+            da, db = dict(ba), dict(bb)
+            for k in sorted(set(da) | set(db), key=str):
+                if k not in da or k not in db:
+                    return f"{path}/{na}: argument '{k}' only on one side"
+                if term_equal(da[k], db[k]) is not True:
+                    return first_diff(da[k], db[k], f"{path}/{na}.{k}")
+            return ""
+        for i, (x, y) in enumerate(zip(a.args, b.args)):
+            if term_equal(x, y) is not True:
+                return first_diff(x, y, f"{path}/{a.op}[{i}]")
+        return ""
+    if term_equal(a, b) is not True:
+        return f"{path or 'root'}: {fmt(a)} vs {fmt(b)}"
+    return ""
